@@ -331,14 +331,28 @@ def c11_5(ctx: Ctx) -> RuleResult:
                 "" if ok else f"`{fld}` is not the matching component of the transformed linear constraints", construct=f"LinearConstraintsConfig.{fld}: to_optimizer",
                 where=f"{lc.module.relpath}:{lc.node.lineno}", fname=lc.qualname)
     gc = ctx.repo.cls("ropt.config.enopt._gradient_config.GradientConfig")
-    m = next((mm for mm in gc.methods.values() if "magnitudes_to_optimizer" in ast.unparse(mm.node)), None)
+    cands = list(gc.methods.values())
+    for g_ in ctx.cg.reachable(list(gc.methods.values()), include_nested_values=False):
+        if g_.module is gc.module and g_.cls is None and g_.name.startswith("_") and g_ not in cands:
+            cands.append(g_)
+    ABS = ("global", "ropt.enums.PerturbationType.ABSOLUTE")
+    is_abs_sel = lambda t_: contains(t_, lambda s_: s_[0] == "cmp" and s_[1] == "==" and ABS in (s_[2], s_[3]))  # noqa: E731
+    from_m2o = lambda t_: contains(t_, lambda s_: s_[0] == "call" and s_[1][0] == "attr" and s_[1][2] == "magnitudes_to_optimizer")  # noqa: E731
+    m = next((mm for mm in cands if any(isinstance(x, ast.Attribute) and x.attr == "magnitudes_to_optimizer" for x in ast.walk(mm.node))), None)
     ok = False
     if m is not None:
         for n in nodes_in(m, ast.Assign):
             t = n.targets[0]
-            if isinstance(t, ast.Subscript) and "absolute" in ast.unparse(t.slice) and "absolute" in ast.unparse(n.value):
-                abs_t = X.at(m, t.slice)
-                ok = contains(abs_t, lambda s: s == ("global", "ropt.enums.PerturbationType.ABSOLUTE"))
+            if isinstance(t, ast.Subscript):
+                sel_t, val_t = X.at(m, t.slice), X.at(m, n.value)
+                # magnitudes[absolute] = transformed[absolute]
+                if is_abs_sel(sel_t) and val_t[0] == "sub" and val_t[2] == sel_t and from_m2o(val_t[1]):
+                    ok = True
+        for c_ in calls_in(m):
+            t = norm(X.at(m, c_))
+            # where(types == ABSOLUTE, transformed, magnitudes)
+            if t[0] == "call" and t[1] == G("numpy.where") and len(t[2]) == 3 and is_abs_sel(t[2][0]) and from_m2o(t[2][1]) and not from_m2o(t[2][2]):
+                ok = True
     res.add(m, m.node if m else gc.node, "absolute perturbation magnitudes (and only those) are replaced by magnitudes_to_optimizer", ok,
             "" if ok else "absolute magnitudes are not transformed with the variable scaling", construct="GradientConfig: absolute magnitudes")
     # the EnOptConfig validators pass the context on
